@@ -1,7 +1,442 @@
-//! Lane `paged` (stub).
+//! Lane `paged` (C16, also observations for C13): the REAL `PagedResults` adapter (alone, behind and
+//! in front of `EntriesOnly`) over the scripted transport; the scripted server reads every
+//! SearchRequest the client writes, decodes its controls and feeds the next page.
+//! M lines: `stream.run …` (Model.Stream) vs the real outputs, request sequence and scrubs;
+//! R lines: the clauses of C16 evaluated in Rust on the real bytes, and the release of every
+//! page's message ID / routing entry after the search (read to the end, finished early, timed out
+//! or abandoned on a later page).
+use crate::fmtx::*;
+use crate::lanes::streams::*;
 use crate::out::Out;
 use crate::rng::Rng;
+use ldap3::Scope;
 
-pub fn run(_thorough: bool, _rng: Rng, out: Out) {
-    out.finish("stub lane: nothing generated yet");
+struct PagedCase {
+    sc: Scenario,
+    size: i32,
+    others: Vec<ReqCtl>,
+    /// pages the client is expected to consume (index of the stop page + 1)
+    consumed: usize,
+    dup_paging: bool,
+}
+
+fn cookie_pattern(rng: &mut Rng, k: usize) -> Vec<u8> {
+    match rng.below(6) {
+        0 => vec![k as u8 + 1],
+        1 => vec![0],
+        2 => vec![0; 4],
+        3 => {
+            let mut v = rng.bytes(300);
+            v[0] = k as u8;
+            v
+        }
+        4 => rng.bytes(16),
+        _ => format!("cookie-{}", k).into_bytes(),
+    }
+}
+
+/// a result set of `total` entries cut into pages of `size`; `stop`: how the last page says so
+fn gen_case(rng: &mut Rng, toks: &mut Toks, chain: Vec<A>, total: usize, size: i32, calls_mode: u64) -> PagedCase {
+    let per = size.max(1) as usize;
+    let n_pages = if total == 0 { 1 } else { (total + per - 1) / per };
+    let mut pages = vec![];
+    let mut left = total;
+    let noise = rng.chance(1, 3);
+    let stop_without_control = rng.chance(1, 6);
+    let dup_paging = rng.chance(1, 25);
+    // an empty first page followed by more (a server may do that): one case in eight
+    let empty_first = total > 0 && rng.chance(1, 8);
+    let mut consumed = 0;
+    let mut k = 0;
+    while k < n_pages + empty_first as usize {
+        let mut script = vec![];
+        let here = if empty_first && k == 0 { 0 } else { left.min(per) };
+        for _ in 0..here {
+            if noise && rng.chance(1, 4) {
+                let kind = if rng.chance(1, 2) { K::R } else { K::I };
+                script.push(Recv::Item(mk_item(kind, toks, vec![])));
+            }
+            let ctls = if noise && rng.chance(1, 5) { gen_ctls(rng, toks) } else { vec![] };
+            script.push(Recv::Item(mk_item(K::E, toks, ctls)));
+        }
+        left -= here;
+        let last = k + 1 == n_pages + empty_first as usize;
+        let mut ctls = vec![];
+        if rng.chance(1, 3) {
+            ctls.extend(gen_ctls(rng, toks));
+        }
+        if !(last && stop_without_control) {
+            let cookie = if last { vec![] } else { cookie_pattern(rng, k) };
+            ctls.push(RespCtl { paged: true, cookie: Some(cookie), tok: total as u64 });
+            if dup_paging && last {
+                ctls.push(RespCtl { paged: true, cookie: Some(if rng.chance(1, 2) { vec![] } else { vec![7] }), tok: 1 });
+            }
+        }
+        if rng.chance(1, 3) {
+            ctls.extend(gen_ctls(rng, toks));
+        }
+        let rc = if last { *rng.pick(&[0u32, 0, 0, 4, 11]) } else { 0 };
+        script.push(Recv::Done(Done { rc, refs: vec![], ctls, tok: toks.next() }));
+        pages.push(Page::Script(script));
+        consumed += 1;
+        k += 1;
+    }
+    // a page the client must never ask for
+    if rng.chance(1, 2) {
+        pages.push(Page::Script(vec![Recv::Item(mk_item(K::E, toks, vec![])), Recv::Done(Done { rc: 0, refs: vec![], ctls: vec![], tok: toks.next() })]));
+    }
+    let others: Vec<ReqCtl> = if rng.chance(1, 2) { (0..rng.range(1, 3)).map(|_| ReqCtl::Other(rng.range(1, 900))).collect() } else { vec![] };
+    let handle = Handle {
+        ctrls: if others.is_empty() && rng.chance(1, 2) { None } else { Some(others.clone()) },
+        tmo: rng.chance(1, 5),
+        opts: if rng.chance(1, 2) { Some(rng.range(1, 2000)) } else { None },
+    };
+    let v = ref_view(&chain, &pages);
+    let mut calls = vec![];
+    match calls_mode {
+        // read to the end, look at the state, finish, and again
+        0 => {
+            for _ in 0..v.steps.len() + 1 {
+                calls.push(Call::Next);
+            }
+            calls.extend([Call::State, Call::Next, Call::Finish, Call::State, Call::Finish]);
+        }
+        // stop somewhere (model correspondence; the early finish() is judged in lane streams)
+        _ => {
+            let upto = rng.below(v.steps.len() as u64 + 1) as usize;
+            for _ in 0..upto {
+                calls.push(Call::Next);
+                if rng.chance(1, 6) {
+                    calls.push(Call::State);
+                }
+            }
+            calls.extend([Call::Finish, Call::Next, Call::State]);
+        }
+    }
+    PagedCase { sc: Scenario { chain, handle, qtok: rng.range(1, 9), filter_ok: true, pages, calls }, size, others, consumed, dup_paging }
+}
+
+fn released(o: &Obs) -> (bool, String) {
+    (o.in_use.is_empty() && o.last_maps == "r=[] s=[]", format!("in_use={:?} maps={}", o.in_use, o.last_maps))
+}
+
+/// cookies the follow-up requests must carry: those of the consumed pages but the last
+fn expected_cookies(pages: &[Page], consumed: usize) -> Vec<Vec<u8>> {
+    let mut v = vec![vec![]];
+    for p in pages.iter().take(consumed.saturating_sub(1)) {
+        if let Page::Script(l) = p {
+            for r in l {
+                if let Recv::Done(d) = r {
+                    if let Some(c) = d.ctls.iter().find(|c| c.paged) {
+                        v.push(c.cookie.clone().unwrap_or_default());
+                    }
+                }
+            }
+        }
+    }
+    v
+}
+
+fn c16_clauses(out: &mut Out, pc: &PagedCase, o: &Obs) {
+    let sc = &pc.sc;
+    let chain = chain_text(&sc.chain);
+    let tail = format!("chain={} size={} pages={}", chain, pc.size, pages_text(&sc.pages));
+    // entries: concatenation of the pages' items as the chain presents them, each once, then none
+    let v = ref_view(&sc.chain, &sc.pages);
+    let want: Vec<String> = v.steps.iter().map(|(_, i)| format!("some:{}", item_out(i))).collect();
+    let got: Vec<String> = o.outputs.iter().filter(|s| s.starts_with("some:")).cloned().collect();
+    out.r(&format!("paged.entries-concatenation-each-once chain={}", chain), want == got && o.panicked.is_none(), &format!("want {:?} got {:?} panic {:?} ; {}", want, got, o.panicked, tail));
+    // requests
+    let cookies = expected_cookies(&sc.pages, pc.consumed);
+    let mut ok = o.reqs.len() == cookies.len();
+    let mut why = format!("{} requests, expected {}", o.reqs.len(), cookies.len());
+    for (k, r) in o.reqs.iter().enumerate() {
+        let mut want = pc.others.clone();
+        want.push(ReqCtl::Paged(pc.size, cookies.get(k).cloned().unwrap_or_default()));
+        if r.ctls.as_ref() != Some(&want) {
+            ok = false;
+            why = format!("request {} carries {:?}, expected {:?}", k, r.ctls, want);
+            break;
+        }
+        if r.op != o.reqs[0].op {
+            ok = false;
+            why = format!("request {} differs from the first in base/scope/filter/attributes/options: {} vs {}", k, hex(&r.op), hex(&o.reqs[0].op));
+            break;
+        }
+        if r.id != k as i64 + 1 {
+            ok = false;
+            why = format!("request {} has message ID {}", k, r.id);
+            break;
+        }
+    }
+    out.r(&format!("paged.request-sequence chain={}", chain), ok, &format!("{} ; {}", why, tail));
+    out.r(&format!("paged.stops-at-first-empty-cookie chain={}", chain), o.reqs.len() == pc.consumed, &format!("{} requests for {} pages up to the first empty cookie ; {}", o.reqs.len(), pc.consumed, tail));
+    // options as given on every request
+    let want_o = format!("/o{}/", match sc.handle.opts { Some(t) => t.to_string(), None => String::from("-") });
+    out.r(&format!("paged.options-repeated chain={}", chain), o.reqs.iter().all(|r| r.text.contains(&want_o)), &format!("{:?} ; {}", o.reqs.iter().map(|r| r.text.clone()).collect::<Vec<_>>(), tail));
+    // final result
+    if let Ending::Done(d) = &v.ending {
+        let mut refs = d.refs.clone();
+        for (g, _) in &v.steps {
+            refs.extend(g.iter().cloned());
+        }
+        refs.extend(v.end_gain.iter().cloned());
+        let want = format!("res:{}/{}/{}/t{}", d.rc, hexlist(&refs), ctls_text(&d.ctls), d.tok);
+        let got = o.outputs.iter().find(|s| s.starts_with("res:")).cloned().unwrap_or_default();
+        out.r(&format!("paged.final-result-is-last-pages chain={}", chain), want == got, &format!("want {} got {} ; {}", want, got, tail));
+        if !pc.dup_paging {
+            out.r(&format!("paged.final-result-has-no-paging-control chain={}", chain), !got.contains("g"), &format!("got {} ; {}", got, tail));
+        } else {
+            out.stat("dup-paging-control");
+        }
+    }
+    let (rel, d) = released(o);
+    out.r(&format!("paged.ids-released-after-read-to-end chain={}", chain), rel, &format!("{} ; {}", d, tail));
+}
+
+/// later-page scenarios: pages 1..k-1 complete with cookies, page k in flight
+fn later_page_pages(toks: &mut Toks, k: usize, per: usize, page_k: Vec<Recv>) -> Vec<Page> {
+    let mut pages = vec![];
+    for p in 0..k - 1 {
+        let mut script: Vec<Recv> = (0..per).map(|_| Recv::Item(mk_item(K::E, toks, vec![]))).collect();
+        script.push(Recv::Done(Done { rc: 0, refs: vec![], ctls: vec![RespCtl { paged: true, cookie: Some(vec![p as u8 + 1, 0xee]), tok: 0 }], tok: toks.next() }));
+        pages.push(Page::Script(script));
+    }
+    pages.push(Page::Script(page_k));
+    pages
+}
+
+fn later_page_checks(out: &mut Out, what: &str, chain: &[A], k: usize, o: &Obs, want_scrubs: Option<usize>) {
+    let chain_t = chain_text(chain);
+    let d0 = format!("page={} reqs={:?} scrubs={:?} abandons={:?} outputs={:?}", k, o.reqs.iter().map(|r| r.id).collect::<Vec<_>>(), o.scrubs, o.abandons, o.outputs);
+    let (rel, d) = released(o);
+    out.r(&format!("paged.later-page-{}-ids-released chain={}", what, chain_t), rel && o.panicked.is_none(), &format!("{} ; {}", d, d0));
+    let cur = o.reqs.get(k - 1).map(|r| r.id);
+    out.r(&format!("paged.later-page-{}-request-count chain={}", what, chain_t), o.reqs.len() == k, &d0);
+    if let Some(n) = want_scrubs {
+        let ok = o.scrubs.len() == n && o.scrubs.iter().all(|s| Some(*s) == cur);
+        out.r(&format!("paged.later-page-{}-scrub-names-page-in-flight chain={}", what, chain_t), ok, &d0);
+    }
+}
+
+fn later_page_cases(out: &mut Out, rng: &mut Rng, toks: &mut Toks, thorough: bool) {
+    let chains = [vec![A::P(3)], vec![A::E, A::P(3)], vec![A::P(3), A::E]];
+    let reps = if thorough { 6 } else { 2 };
+    for chain in &chains {
+        for k in 2..=4usize {
+            for _ in 0..reps {
+                let per = rng.range(1, 3) as usize;
+                // items of page k delivered before the silence, and how many of them the caller reads
+                // (at least one: the next() that crosses the page boundary returns an item of page k)
+                let in_k = rng.range(1, 3) as usize;
+                let read_k = rng.range(1, in_k as u64) as usize;
+                // (a) finish() in the middle of page k, the server silent for the rest of that page
+                let page_k: Vec<Recv> = (0..in_k).map(|_| Recv::Item(mk_item(K::E, toks, vec![]))).collect();
+                let pages = later_page_pages(toks, k, per, page_k);
+                let mut calls = vec![Call::Next; (k - 1) * per + read_k];
+                calls.extend([Call::Finish, Call::State]);
+                let sc = Scenario { chain: chain.clone(), handle: Handle::default(), qtok: 2, filter_ok: true, pages, calls };
+                let o = check_scenario(out, "paged", &sc, false);
+                out.case(&scenario_request(&sc, "-"), true);
+                out.stat("later-page.finish-early");
+                later_page_checks(out, "finish-early", chain, k, &o, Some(1));
+                // (b) the per-next() time-out fires on page k
+                let mut page_k: Vec<Recv> = (0..in_k).map(|_| Recv::Item(mk_item(K::E, toks, vec![]))).collect();
+                page_k.push(Recv::Timeout);
+                let pages = later_page_pages(toks, k, per, page_k);
+                let mut calls = vec![Call::Next; (k - 1) * per + in_k + 1];
+                let with_finish = rng.chance(1, 2);
+                calls.push(Call::State);
+                if with_finish {
+                    calls.push(Call::Finish);
+                }
+                let sc = Scenario { chain: chain.clone(), handle: Handle { tmo: true, ..Handle::default() }, qtok: 2, filter_ok: true, pages, calls };
+                let o = check_scenario(out, "paged", &sc, false);
+                out.case(&scenario_request(&sc, "-"), true);
+                out.stat("later-page.timeout");
+                later_page_checks(out, "timeout", chain, k, &o, Some(if with_finish { 2 } else { 1 }));
+                out.r(
+                    &format!("paged.later-page-timeout-reported chain={}", chain_text(chain)),
+                    o.outputs.iter().any(|s| s == "err:timeout") && o.outputs.iter().any(|s| s == "error"),
+                    &format!("{:?}", o.outputs),
+                );
+                // (c) last_id() read during page k, that ID abandoned from another handle
+                let page_k: Vec<Recv> = (0..in_k).map(|_| Recv::Item(mk_item(K::E, toks, vec![]))).collect();
+                let pages = later_page_pages(toks, k, per, page_k);
+                let reads = (k - 1) * per + 1;
+                let chain2 = chain.clone();
+                let then_finish = rng.chance(1, 2);
+                let o = run_in_rt(&pages, false, move |mut ctx: Ctx| async move {
+                    let lim = 60;
+                    let started = with_server(&mut ctx.server, ctx.ldap.streaming_search_with(adapters_of(&chain2), "dc=q2", Scope::Subtree, filter_of(true), ATTRS.to_vec()), lim).await;
+                    let Some(Ok(mut stream)) = started else {
+                        ctx.obs.borrow_mut().outputs.push(String::from("start-failed"));
+                        return ctx;
+                    };
+                    for _ in 0..reads {
+                        let r = with_server(&mut ctx.server, stream.next(), lim).await;
+                        let txt = match r {
+                            Some(Ok(Some(re))) => format!("some:{}", client_item_text(&re)),
+                            Some(Ok(None)) => String::from("none"),
+                            Some(Err(e)) => format!("err:{}", err_word(&e)),
+                            None => String::from("pending"),
+                        };
+                        ctx.obs.borrow_mut().outputs.push(txt);
+                    }
+                    let id = stream.ldap_handle().last_id();
+                    ctx.obs.borrow_mut().notes.push((String::from("last_id"), id.to_string()));
+                    let mut other = ctx.ldap.clone();
+                    let r = with_server(&mut ctx.server, other.abandon(id), lim).await;
+                    ctx.obs.borrow_mut().outputs.push(format!("abandon:{}", match r { Some(Ok(())) => String::from("ok"), Some(Err(e)) => err_word(&e), None => String::from("pending") }));
+                    settle(&mut ctx.server).await;
+                    if then_finish {
+                        let r = with_server(&mut ctx.server, stream.finish(), lim).await;
+                        ctx.obs.borrow_mut().outputs.push(match r { Some(r) => format!("res:{}", client_res_text(&r)), None => String::from("pending") });
+                    }
+                    drop(stream);
+                    ctx
+                });
+                out.case(&format!("later-page.abandon {} k={} per={} {}", chain_text(chain), k, per, pages_text(&pages)), true);
+                out.stat("later-page.abandon");
+                later_page_checks(out, "abandon", chain, k, &o, None);
+                let cur = o.reqs.get(k - 1).map(|r| r.id);
+                let last_id: Option<i64> = o.notes.iter().find(|n| n.0 == "last_id").and_then(|n| n.1.parse().ok());
+                let d0 = format!("last_id={:?} page-{} request id={:?} abandons={:?} outputs={:?}", last_id, k, cur, o.abandons, o.outputs);
+                out.r(&format!("paged.later-page-last-id-is-current-pages-request chain={}", chain_text(chain)), last_id.is_some() && last_id == cur, &d0);
+                out.r(&format!("paged.later-page-abandon-names-page-in-flight chain={}", chain_text(chain)), o.abandons.len() == 1 && o.abandons.first().copied() == cur, &d0);
+            }
+        }
+    }
+}
+
+pub fn run(thorough: bool, mut rng: Rng, mut out: Out) {
+    let mut toks = Toks(1000);
+    let chains = [vec![0u8], vec![1, 0], vec![0, 1]];
+    let mk_chain = |c: &Vec<u8>, size: i32| -> Vec<A> { c.iter().map(|x| if *x == 0 { A::P(size) } else { A::E }).collect() };
+    // 1. result-set sizes 0..50 x page sizes 1..10 and one larger than the total; chain rotates
+    //    (all three chains on every combination when thorough)
+    let mut idx = 0usize;
+    for total in 0..=50usize {
+        let mut sizes: Vec<i32> = (1..=10).collect();
+        sizes.push(total as i32 + 7);
+        for size in sizes {
+            let which: Vec<usize> = if thorough { vec![0, 1, 2] } else { vec![idx % 3] };
+            idx += 1;
+            for w in which {
+                let chain = mk_chain(&chains[w], size);
+                let mode = if idx % 4 == 3 { 1 } else { 0 };
+                let pc = gen_case(&mut rng, &mut toks, chain, total, size, mode);
+                let o = check_scenario(&mut out, "paged", &pc.sc, false);
+                out.case(&scenario_request(&pc.sc, "-"), true);
+                out.stat(&format!("pages={}", pc.consumed.min(9)));
+                out.stat(if mode == 0 { "read-to-end" } else { "stopped-early" });
+                if mode == 0 {
+                    c16_clauses(&mut out, &pc, &o);
+                } else {
+                    let (rel, d) = released(&o);
+                    out.r(&format!("paged.ids-released-after-early-finish chain={}", chain_text(&pc.sc.chain)), rel, &format!("{} ; pages={}", d, pages_text(&pc.sc.pages)));
+                }
+            }
+        }
+    }
+    // 2. a caller-supplied paging control: rejected when the search starts, nothing is sent
+    for k in 0..(if thorough { 200 } else { 40 }) {
+        let size = rng.range(1, 10) as i32;
+        let chain = mk_chain(&chains[k % 3], size);
+        let mut cs: Vec<ReqCtl> = (0..rng.below(3)).map(|_| ReqCtl::Other(rng.range(1, 900))).collect();
+        let pos = rng.below(cs.len() as u64 + 1) as usize;
+        cs.insert(pos, ReqCtl::Paged(rng.range(0, 50) as i32, if rng.chance(1, 2) { vec![] } else { rng.bytes(5) }));
+        let pages = vec![Page::Script(vec![Recv::Item(mk_item(K::E, &mut toks, vec![])), Recv::Done(Done { rc: 0, refs: vec![], ctls: vec![], tok: toks.next() })])];
+        let sc = Scenario { chain: chain.clone(), handle: Handle { ctrls: Some(cs), tmo: false, opts: None }, qtok: 1, filter_ok: rng.chance(9, 10), pages, calls: vec![Call::Next, Call::Finish] };
+        let o = check_scenario(&mut out, "paged", &sc, false);
+        out.case(&scenario_request(&sc, "-"), true);
+        out.stat("caller-paging-control");
+        out.r(
+            &format!("paged.caller-paging-control-rejected chain={}", chain_text(&chain)),
+            o.outputs == vec![String::from("err:init")] && o.reqs.is_empty() && o.in_use.is_empty(),
+            &format!("outputs {:?} requests {} in_use {:?}", o.outputs, o.reqs.len(), o.in_use),
+        );
+    }
+    // 3. follow-up page cannot be submitted (connection lost after a page) / disconnect / silence in a later page
+    for k in 0..(if thorough { 300 } else { 60 }) {
+        let size = 2;
+        let chain = mk_chain(&chains[k % 3], size);
+        let mut pages = vec![];
+        let n_before = rng.range(1, 3) as usize;
+        for p in 0..n_before {
+            let mut script: Vec<Recv> = (0..2).map(|_| Recv::Item(mk_item(K::E, &mut toks, vec![]))).collect();
+            script.push(Recv::Done(Done { rc: 0, refs: vec![], ctls: vec![RespCtl { paged: true, cookie: Some(vec![p as u8 + 1]), tok: 5 }], tok: toks.next() }));
+            pages.push(Page::Script(script));
+        }
+        let mode = rng.below(4);
+        match mode {
+            0 => {
+                // the server closes right after the Done of the last complete page
+                if let Some(Page::Script(l)) = pages.last_mut() {
+                    l.push(Recv::Closed);
+                }
+                pages.push(Page::Fail);
+            }
+            1 => pages.push(Page::Script(vec![Recv::Item(mk_item(K::E, &mut toks, vec![])), Recv::Closed])),
+            2 => pages.push(Page::Script(vec![Recv::Item(mk_item(K::E, &mut toks, vec![]))])), // then silence
+            _ => {} // the server never answers the follow-up request
+        }
+        let n_calls = 2 * n_before + 3;
+        let mut calls = vec![Call::Next; n_calls];
+        calls.extend([Call::State, Call::Finish, Call::State]);
+        let sc = Scenario { chain, handle: Handle::default(), qtok: 1, filter_ok: true, pages, calls };
+        check_scenario(&mut out, "paged", &sc, false);
+        out.case(&scenario_request(&sc, "-"), true);
+        out.stat(&format!("later-page-fault={}", match mode { 0 => "cannot-submit", 1 => "disconnect", 2 => "silence", _ => "no-answer" }));
+    }
+    // 4. a paging control without a value: `raw.parse()` panics (caller side) — model correspondence
+    for k in 0..(if thorough { 30 } else { 9 }) {
+        let chain = mk_chain(&chains[k % 3], 2);
+        let pages = vec![Page::Script(vec![Recv::Item(mk_item(K::E, &mut toks, vec![])), Recv::Done(Done { rc: 0, refs: vec![], ctls: vec![RespCtl { paged: true, cookie: None, tok: 0 }], tok: toks.next() })])];
+        let sc = Scenario { chain, handle: Handle::default(), qtok: 1, filter_ok: true, pages, calls: vec![Call::Next, Call::Next, Call::Finish] };
+        check_scenario(&mut out, "paged", &sc, false);
+        out.case(&scenario_request(&sc, "-"), true);
+        out.stat("paging-control-without-value");
+    }
+    // 5. non-default search options + caller controls + a stream time-out, at least three pages: every
+    //    SearchRequest on the wire decodes to the same request, the paging cookie apart
+    for k in 0..(if thorough { 60 } else { 12 }) {
+        let size = rng.range(1, 4) as i32;
+        let chain = mk_chain(&chains[k % 3], size);
+        let n_pages = 3 + k % 3;
+        let mut pages = vec![];
+        for p in 0..n_pages {
+            let mut script: Vec<Recv> = (0..size as usize).map(|_| Recv::Item(mk_item(K::E, &mut toks, vec![]))).collect();
+            let cookie = if p + 1 == n_pages { vec![] } else { cookie_pattern(&mut rng, p) };
+            script.push(Recv::Done(Done { rc: 0, refs: vec![], ctls: vec![RespCtl { paged: true, cookie: Some(cookie), tok: 77 }], tok: toks.next() }));
+            pages.push(Page::Script(script));
+        }
+        let others = vec![ReqCtl::Other(rng.range(1, 900)), ReqCtl::Other(rng.range(1, 900))];
+        // deref = Always (3), typesonly = true, sizelimit = 500, timelimit = 30
+        let handle = Handle { ctrls: Some(others.clone()), tmo: true, opts: Some(opts_token(3, true, 500, 30)) };
+        let mut calls = vec![Call::Next; n_pages * size as usize + 1];
+        calls.extend([Call::State, Call::Finish]);
+        let sc = Scenario { chain: chain.clone(), handle, qtok: 4, filter_ok: true, pages: pages.clone(), calls };
+        let o = check_scenario(&mut out, "paged", &sc, false);
+        out.case(&scenario_request(&sc, "-"), true);
+        out.stat("options-controls-timeout");
+        let pc = PagedCase { sc, size, others: others.clone(), consumed: n_pages, dup_paging: false };
+        c16_clauses(&mut out, &pc, &o);
+        let want_fields = format!("base=dc=q4 scope=2 deref=3 sizeLimit=500 timeLimit=30 typesOnly=-1 filter={} attrs=[cn,sn]", "(P 2 7 6f626a656374436c617373)");
+        for (p, r) in o.reqs.iter().enumerate() {
+            let others_here: Vec<ReqCtl> = r.ctls.clone().unwrap_or_default().into_iter().filter(|c| !matches!(c, ReqCtl::Paged(..))).collect();
+            let cookie_here: Option<Vec<u8>> = r.ctls.as_ref().and_then(|cs| cs.iter().find_map(|c| if let ReqCtl::Paged(_, ck) = c { Some(ck.clone()) } else { None }));
+            let want_cookie: Vec<u8> = if p == 0 { vec![] } else { expected_cookies(&pages, n_pages).get(p).cloned().unwrap_or_default() };
+            let ok = r.fields == want_fields && r.fields == o.reqs[0].fields && others_here == others && cookie_here == Some(want_cookie.clone());
+            out.r(
+                &format!("paged.followup-repeats-request page={} chain={}", p + 1, chain_text(&chain)),
+                ok,
+                &format!("request {} decodes to {} controls {:?} ; expected {} with {:?} and cookie {}", p + 1, r.fields, r.ctls, want_fields, others, hex(&want_cookie)),
+            );
+        }
+        out.r(&format!("paged.followup-request-count chain={}", chain_text(&chain)), o.reqs.len() == n_pages, &format!("{} requests for {} pages", o.reqs.len(), n_pages));
+    }
+    // 6. a later page in flight when the caller stops: finish(), time-out, abandon of last_id()
+    later_page_cases(&mut out, &mut rng, &mut toks, thorough);
+    out.finish("real PagedResults adapter (chains [Paged], [EntriesOnly,Paged], [Paged,EntriesOnly]) against a scripted server that decodes every SearchRequest and feeds the next page: result-set sizes 0..50 x page sizes 1..10 and total+7 (chain rotating; all three when thorough), cookies of 1 / 4 zero / 16 / 300 bytes / text, empty first page, last page with empty cookie or without the control, references / intermediates / per-item controls mixed in, other response controls around the paging control, caller controls / search options / time-out; three quarters read to the end (C16 clauses from the real bytes + ID release), one quarter stopped early; caller-supplied paging control; lost connection / silence on a later page; paging control without value; later page in flight: early finish, per-next time-out, abandon of last_id() from another handle. non-trivial = every case; distinct by FNV of the canonical scenario");
 }
